@@ -110,6 +110,15 @@ class Ctx(object):
         self.inconclusive_reasons = Counter()
         self.extra = {}
 
+    def should_stop(self, limit=25):
+        """A broken tree can make every execution slow (budgets, timeouts): once a shard has this many
+        violating executions further cases add nothing."""
+        if self.n_violations >= limit:
+            if not self.extra.get("stopped_early"):
+                self.extra["stopped_early"] = 1
+            return True
+        return False
+
     def rng(self, name=""):
         return random.Random(
             "%s:%s:%s:%s" % (self.pid, self.seed, self.shard_index, name)
@@ -534,8 +543,9 @@ def main(argv=None):
         "wall_s": round(wall, 2),
         "violations": len(fresh),
     }
-    os.makedirs(os.path.join(VERIF, "evidence"), exist_ok=True)
-    with open(os.path.join(VERIF, "evidence", pid + ".json"), "w") as f:
+    evdir = os.environ.get("VERIF_EVIDENCE_DIR") or os.path.join(VERIF, "evidence")
+    os.makedirs(evdir, exist_ok=True)
+    with open(os.path.join(evdir, pid + ".json"), "w") as f:
         f.write(jdumps(ev, indent=1))
 
     print("%s tier=%s seed=%d evaluations=%d distinct_nontrivial=%d verdicts=%s wall=%.1fs" % (
